@@ -24,7 +24,7 @@ CLAIMED = {
             "abstract interpretation in an exactness domain {ONE, INT(linear form), ROUNDED} with loop and call summaries; interval interpretation of the scoring helper", "§3/C03, §9.2"),
     "C04": ("partial: API filter, helper-symbol containment, error discipline, visitor exhaustiveness, scanner leaves = input slices with a "
             "column advance that matches the consumed length, complete mode accepts only complete matches, the forest memo key covers mode/start/word, "
-            "helper-rule ids are unique across merged specs, byte scanners run at byte-aligned columns only, the memo behind the API filter's verdicts distinguishes bindings",
+            "helper-rule ids are unique across merged specs, byte scanners run at byte-aligned columns only, the memo behind the API filter's verdicts distinguishes bindings, no decorator memo on the matching path misses an input, helpers do not write into the session defaults (start symbol) they are lent",
             "control dependence of yields, writer/reader prefix tables, who-may-call, sibling cross-check, key-construction tracing, chain-of-custody of the id prefix", "§3/C04, §9.2"),
     "C06": ("the state-identity argument of Earley termination plus two progress clauses: items admitted to a column have a finite, hash/eq-consistent identity, the "
             "de-duplication cannot be bypassed, the column index strictly advances, a completed scan must have consumed input (unconditional no-progress rejection), "
@@ -45,7 +45,7 @@ CLAIMED = {
             "fields, copy completeness, positions looked up by reference, symbol hashes carry the symbol kind, decorator memos on tree accessors are keyed by everything they read",
             "interprocedural ownership/effect analysis (regions, links, dispatch, save/restore brackets) + CFG post-dominance", "§3/C10, §9.2"),
     "C11": ("partial: memo keys cover every input of the miss path and distinguish bindings, are computed before scopes are mutated, hit paths return copies, what a hit deep-copies is copyable "
-            "(type closure clear of spec globals), lists extended in place come from per-call builders, node-level memos handed out by reference are immutable, quantifiers bind only into dictionaries they own, memoised fitness methods read no re-bindable module state, symbol hashes carry the kind, decorator memos reachable from an evaluation are keyed by everything they read",
+            "(type closure clear of spec globals), lists extended in place come from per-call builders, node-level memos handed out by reference are immutable, quantifiers bind only into dictionaries they own, memoised fitness methods read no re-bindable module state, symbol hashes carry the kind, decorator memos reachable from an evaluation are keyed by everything they read, the evaluator asks every constraint on every evaluation, no constraint is duplicated by a shallow copy",
             "memo-idiom recognition, def-use key slicing, CFG ordering, field-type-graph reachability, return-freshness", "§3/C11, §9.2"),
     "C12": ("the cache protocol behind history-independent parsing: publish after completion, served trees share nothing with the memo, "
             "hit path == miss path, per-parse state reset, the key covers every input of the producer (recognised through helper methods as well), values memoised on symbols / grammar nodes / converters do not depend on inputs their slot or key does not cover (decorator memos, key objects compared by fewer fields than the value reads, state set from outside), the clean-up of an abandoned parse generator writes no shared state",
@@ -61,13 +61,13 @@ CLAIMED = {
             "symbolic evaluation of printers to token templates + abstract interpretation of the reader over class sets + Earley recognition of sentential forms of the g4 grammar", "§3/C15, §9.2"),
     "C16": ("partial: generator output is sealed at every Grammar.generate site before it is attached or returned, a misfit raises, regeneration or source clearing on every replaced-source "
             "path (a swallowed failure of the regeneration counts as a skipped one), operators pick only writable targets, the substitution guard protects the replaced node, the read-only mark is removed only from fresh trees, parsed text is not installed "
-            "into generator symbols (known finding)",
+            "into generator symbols (known finding), generator output is never memoised",
             "CFG must-pass-through, guard conjunct check, provenance of candidate lists, freshness of unsealed receivers", "§3/C16, §9.2"),
     "C17": ("inventory of non-reproducible sources (time, uuid, id(), os.urandom, unordered iteration over elements whose hash depends on identity - directly or through a hashed attribute) reachable "
             "from the public API; each frozen with its reason, seed dominates first draw, the seed is tested for presence and never for truth (if / or / not / conditional expression) on its way from the command line",
             "call-graph reachability + taint to control decisions + class-table hash classification + guard-shape check", "§3/C17, §9.2"),
     "C18": ("inventory of state that outlives an instance (module globals re-bound from functions, class-level containers, mutable defaults, default arguments that are objects with written fields) "
-            "with writer and reader both reachable from the public API",
+            "with writer and reader both reachable from the public API; helpers of the command layer do not write into the module-level defaults they are lent",
             "who-writes/who-reads over the call graph", "§3/C18, §9.2"),
     "C19": ("partial: discipline of the walk that computes the options - every node kind handled, position stacks balanced on all paths and restored when an alternative is abandoned, "
             "all alternatives explored, repetition rounds offered exactly while count < max and left exactly when count >= min, message nonterminals offered only while exploring, "
@@ -76,7 +76,7 @@ CLAIMED = {
             "the equivalence with the message language itself is not decided",
             "visitor exhaustiveness + stack-depth dataflow over the CFG + canonical-form comparison of bound tests + branch/return shape checks", "§5, §9.2"),
     "C20": ("partial: lock discipline on the receive buffer, thread-side effects append-only, atomic in-order queuing, acceptance discipline "
-            "of _generate_io, the recorded history is sealed before a packet is mounted on it, the buffer is trimmed to the accepted parse's own fragment index, the fragment scanner returns positions of the buffer it was given, a re-parsed history is adopted only if type, sender and recipient of every message agree",
+            "of _generate_io, the recorded history is sealed before a packet is mounted on it, the buffer is trimmed to the accepted parse's own fragment index, the fragment scanner returns positions of the buffer it was given, a re-parsed history is adopted only if type, sender and recipient of every message agree, per-message state of the protocol evaluator is emptied when the next message starts, grammar nodes are removed by identity when the protocol is cut down to parties",
             "AST region check + call-graph reachability from thread entries + CFG path queries + def-use provenance", "§3/C20, §9.2"),
 }
 
